@@ -27,8 +27,9 @@ use query_engine::ExecutionContext;
 use serde_json::{json, Value};
 use std::collections::HashMap;
 use std::path::PathBuf;
+use std::sync::atomic::{AtomicUsize, Ordering};
 use std::sync::mpsc;
-use std::sync::Mutex;
+use std::sync::{Arc, Mutex};
 use std::time::Duration;
 
 pub const SMALL: usize = 80;
@@ -385,6 +386,64 @@ pub struct Node {
     pub flight: Option<String>,
     pub release: Option<mpsc::Sender<()>>,
     pub data: String,
+    /// Some(counter of POST /fragment requests received) for a test-owned "silent" peer: a TCP socket that accepts, holds every
+    /// /healthz probe open forever (so the peer stays `Unknown` in every member's view) and answers 500 to anything else
+    pub silent: Option<Arc<AtomicUsize>>,
+}
+
+fn spawn_silent_peer() -> (String, Arc<AtomicUsize>) {
+    use std::io::{Read, Write};
+    let l = std::net::TcpListener::bind("127.0.0.1:0").unwrap();
+    let addr = format!("127.0.0.1:{}", l.local_addr().unwrap().port());
+    let frags = Arc::new(AtomicUsize::new(0));
+    let f2 = frags.clone();
+    std::thread::spawn(move || {
+        for c in l.incoming() {
+            let Ok(mut s) = c else { break };
+            let f3 = f2.clone();
+            std::thread::spawn(move || {
+                let mut buf = Vec::new();
+                let mut tmp = [0u8; 4096];
+                loop {
+                    match s.read(&mut tmp) {
+                        Ok(0) | Err(_) => return,
+                        Ok(n) => {
+                            buf.extend_from_slice(&tmp[..n]);
+                            if buf.windows(4).any(|w| w == b"\r\n\r\n") {
+                                break;
+                            }
+                        }
+                    }
+                }
+                let head = String::from_utf8_lossy(&buf).to_string();
+                let first = head.lines().next().unwrap_or("").to_string();
+                if first.contains("/healthz") {
+                    // the probe is never answered and never closed
+                    loop {
+                        std::thread::sleep(Duration::from_secs(3600));
+                    }
+                }
+                let hl = buf.windows(4).position(|w| w == b"\r\n\r\n").unwrap() + 4;
+                let cl = head
+                    .lines()
+                    .find_map(|l| l.to_ascii_lowercase().strip_prefix("content-length:").map(|v| v.trim().parse::<usize>().unwrap_or(0)))
+                    .unwrap_or(0);
+                while buf.len() < hl + cl {
+                    match s.read(&mut tmp) {
+                        Ok(0) | Err(_) => break,
+                        Ok(n) => buf.extend_from_slice(&tmp[..n]),
+                    }
+                }
+                if first.contains("/fragment") {
+                    f3.fetch_add(1, Ordering::SeqCst);
+                }
+                let body = b"{\"error\":\"verif: silent peer\",\"status\":500}";
+                let _ = write!(s, "HTTP/1.1 500 Internal Server Error\r\nContent-Type: application/json\r\nContent-Length: {}\r\nConnection: close\r\n\r\n", body.len());
+                let _ = s.write_all(body);
+            });
+        }
+    });
+    (addr, frags)
 }
 
 pub struct World {
@@ -396,7 +455,7 @@ pub struct World {
     pub rt: tokio::runtime::Runtime,
 }
 
-fn opts(peers: Vec<String>, node_id: u64) -> ServeOptions {
+fn opts(peers: Vec<String>, node_id: u64, probe_timeout_ms: u64) -> ServeOptions {
     ServeOptions {
         bind: "127.0.0.1:0".into(),
         advertise: None,
@@ -405,14 +464,14 @@ fn opts(peers: Vec<String>, node_id: u64) -> ServeOptions {
         peers_dns: None,
         peers_dns_port: None,
         discovery_interval: Duration::from_millis(150),
-        probe_timeout: Duration::from_millis(5000),
+        probe_timeout: Duration::from_millis(probe_timeout_ms),
         drain: Duration::ZERO,
         shutdown_grace: Duration::from_secs(1),
         flight_bind: None,
     }
 }
 
-fn loader(kind: &str, dir_a: PathBuf, dir_b: PathBuf, names: Vec<String>, gate: Option<mpsc::Receiver<()>>) -> TableLoader {
+fn loader(kind: &str, dir_a: PathBuf, dir_b: PathBuf, names: Vec<String>, mem: Vec<Value>, gate: Option<mpsc::Receiver<()>>) -> TableLoader {
     let kind = kind.to_string();
     // the Receiver is moved into the closure behind a Mutex so the closure stays Send
     let gate = Mutex::new(gate);
@@ -429,6 +488,10 @@ fn loader(kind: &str, dir_a: PathBuf, dir_b: PathBuf, names: Vec<String>, gate: 
         let mut c = ExecutionContext::new();
         for n in &names {
             c.register_parquet(n, dir.join(n))?;
+        }
+        // memory tables (a spec without "parquet"): the same batches on every node
+        for t in &mem {
+            c.register_table(t["name"].as_str().unwrap(), sqlutil::schema_of(t), sqlutil::batches_of(t));
         }
         Ok(c)
     })
@@ -470,30 +533,45 @@ impl World {
         std::fs::create_dir_all(&dir_b).unwrap();
         let mut local = ExecutionContext::new();
         let mut names = Vec::new();
+        let mut mem: Vec<Value> = Vec::new();
         for t in v["tables"].as_array().unwrap() {
-            sqlutil::write_parquet(t, &dir_a);
             let n = t["name"].as_str().unwrap().to_string();
-            local.register_parquet(&n, dir_a.join(&n)).unwrap();
-            names.push(n);
+            if t.get("parquet").map(|p| !p.is_null()).unwrap_or(false) {
+                sqlutil::write_parquet(t, &dir_a);
+                local.register_parquet(&n, dir_a.join(&n)).unwrap();
+                names.push(n);
+            } else {
+                local.register_table(&n, sqlutil::schema_of(t), sqlutil::batches_of(t));
+                mem.push(t.clone());
+            }
         }
         for t in v["alt_tables"].as_array().unwrap() {
-            sqlutil::write_parquet(t, &dir_b);
+            if t.get("parquet").map(|p| !p.is_null()).unwrap_or(false) {
+                sqlutil::write_parquet(t, &dir_b);
+            }
         }
         let mut info = serde_json::Map::new();
         let mut next_id: u64 = 1;
         let clusters = v["clusters"].as_object().unwrap().clone();
         for (cname, spec) in clusters.iter() {
             let mut nodes = Vec::new();
+            // a cluster with a silent peer needs a probe that never times out, or the peer would turn Down
+            let probe_ms = spec["probe_timeout_ms"].as_u64().unwrap_or(5000);
             for n in spec["nodes"].as_array().unwrap() {
                 let kind = n["data"].as_str().unwrap_or("A").to_string();
+                if kind == "silent" {
+                    let (addr, frags) = spawn_silent_peer();
+                    nodes.push(Node { handle: None, http: addr, flight: None, release: None, data: kind, silent: Some(frags) });
+                    continue;
+                }
                 let (tx, rx) = mpsc::channel::<()>();
                 let gate = if kind == "block" { Some(rx) } else { None };
-                let l = loader(&kind, dir_a.clone(), dir_b.clone(), names.clone(), gate);
-                let h = self.rt.block_on(query_engine::distributed::spawn(opts(vec![], next_id), l)).expect("spawn");
+                let l = loader(&kind, dir_a.clone(), dir_b.clone(), names.clone(), mem.clone(), gate);
+                let h = self.rt.block_on(query_engine::distributed::spawn(opts(vec![], next_id, probe_ms), l)).expect("spawn");
                 next_id += 1;
                 let http = format!("127.0.0.1:{}", h.local_addr().port());
                 let flight = h.flight_addr().map(|a| format!("127.0.0.1:{}", a.port()));
-                nodes.push(Node { handle: Some(h), http, flight, release: if kind == "block" { Some(tx) } else { None }, data: kind });
+                nodes.push(Node { handle: Some(h), http, flight, release: if kind == "block" { Some(tx) } else { None }, data: kind, silent: None });
             }
             let mut peers: Vec<String> = nodes.iter().map(|n| n.http.clone()).collect();
             if let Some(extra) = spec["extra_peers"].as_array() {
@@ -501,7 +579,7 @@ impl World {
                     peers.push(e.as_str().unwrap().to_string());
                 }
             }
-            for n in &nodes {
+            for n in nodes.iter().filter(|n| n.handle.is_some()) {
                 n.handle.as_ref().unwrap().set_peers(peers.clone());
             }
             self.clusters.insert(cname.clone(), nodes);
@@ -510,7 +588,8 @@ impl World {
         let mut settled = false;
         for _ in 0..400 {
             settled = self.clusters.values().all(|nodes| {
-                nodes.iter().all(|n| {
+                let silent: Vec<&String> = nodes.iter().filter(|n| n.silent.is_some()).map(|n| &n.http).collect();
+                nodes.iter().filter(|n| n.handle.is_some()).all(|n| {
                     let st = n.handle.as_ref().unwrap().state();
                     let loaded_ok = match n.data.as_str() {
                         "fail" => st.load_error().is_some(),
@@ -520,7 +599,7 @@ impl World {
                     let ms = st.membership.members();
                     let peers_seen = st.membership.resolved()
                         && ms.len() >= nodes.len()
-                        && ms.iter().all(|m| m.is_self || m.status != PeerStatus::Unknown);
+                        && ms.iter().all(|m| m.is_self || silent.contains(&&m.address) || m.status != PeerStatus::Unknown);
                     loaded_ok && peers_seen
                 })
             });
@@ -856,11 +935,29 @@ impl World {
             }
             Err(_) => json!("panic"),
         };
+        let silent_count = |w: &World| -> usize {
+            w.clusters.get(v["cluster"].as_str().unwrap()).map(|ns| ns.iter().filter_map(|x| x.silent.as_ref()).map(|c| c.load(Ordering::SeqCst)).sum()).unwrap_or(0)
+        };
+        let frag_before = silent_count(self);
         let before = members_json(n);
-        let http: Vec<Value> = v["http"].as_array().map(|a| a.iter().map(|q| self.http_sql(n, q.as_str().unwrap(), sql, &names, &types)).collect()).unwrap_or_default();
+        // per request: how many fragments the cluster's silent (Unknown) peers were sent while it ran
+        let http: Vec<Value> = v["http"]
+            .as_array()
+            .map(|a| {
+                a.iter()
+                    .map(|q| {
+                        let f0 = silent_count(self);
+                        let mut r = self.http_sql(n, q.as_str().unwrap(), sql, &names, &types);
+                        r["silent_fragments"] = json!(silent_count(self) - f0);
+                        r
+                    })
+                    .collect()
+            })
+            .unwrap_or_default();
         let flight: Vec<Value> = v["flight"].as_array().map(|a| a.iter().map(|m| self.flight_sequence(n, sql, m.as_str())).collect()).unwrap_or_default();
         let after = members_json(n);
-        json!({"local": local, "plannable": plannable, "plan_error": plan_error, "members": before, "members_after": after,
+        let frag_after = silent_count(self);
+        json!({"silent_fragments": frag_after - frag_before, "local": local, "plannable": plannable, "plan_error": plan_error, "members": before, "members_after": after,
                "loaded": n.handle.as_ref().map(|h| h.state().tables_loaded()),
                "load_error": n.handle.as_ref().and_then(|h| h.state().load_error()),
                "http": http, "flight": flight})
@@ -873,7 +970,9 @@ pub fn members_json(n: &Node) -> Value {
         Some(h) => {
             let ms = h.state().membership.members();
             let up = ms.iter().filter(|m| m.is_self || m.status == PeerStatus::Up).count();
-            json!({"up": up, "total": ms.len(),
+            let unknown = ms.iter().filter(|m| !m.is_self && m.status == PeerStatus::Unknown).count();
+            let down = ms.iter().filter(|m| !m.is_self && m.status == PeerStatus::Down).count();
+            json!({"up": up, "unknown": unknown, "down": down, "total": ms.len(),
                    "status": ms.iter().map(|m| format!("{}:{:?}", if m.is_self { "self" } else { "peer" }, m.status)).collect::<Vec<_>>()})
         }
     }
